@@ -1,6 +1,7 @@
 //! rv: property-based verification harness for Ruschm (see /verif/DESIGN.md).
 pub mod checks;
 pub mod numgrid;
+pub mod reflex;
 pub mod refnum;
 pub mod runner;
 pub mod sut;
